@@ -135,7 +135,7 @@ def ensure_makefile():
 def coq_make(targets, timeout=1500):
     """Full .vo build of the given targets (paths relative to coq/)."""
     ensure_makefile()
-    rc, txt, dt = run(["make", "-j16", "-k"] + list(targets), timeout, cwd=COQ)
+    rc, txt, dt = run(["make", "-j%d" % max(2, adaptive_jobs()), "-k"] + list(targets), timeout, cwd=COQ)
     return rc == 0, txt, dt
 
 
@@ -314,6 +314,22 @@ def is_allowed_exn(e: BaseException) -> bool:
 # --------------------------------------------------------------------------
 # evaluation of generated cases inside Coq (vm_compute), sharded
 # --------------------------------------------------------------------------
+def adaptive_jobs(per_job_gb: float = 0.8) -> int:
+    """Number of parallel coqc processes the machine can take right now (memory and load)."""
+    try:
+        avail = 0
+        for line in open("/proc/meminfo"):
+            if line.startswith("MemAvailable:"):
+                avail = int(line.split()[1]) / 1048576.0
+        by_mem = int(avail / per_job_gb)
+        load = os.getloadavg()[0]
+        ncpu = os.cpu_count() or 16
+        by_load = ncpu if load < ncpu else max(2, int(ncpu * ncpu / (2 * load)))
+        return max(1, min(16, by_mem, by_load))
+    except Exception:
+        return 8
+
+
 class CoqEval:
     """cases: list of Coq terms of one type T; check: name of a Coq function
     T -> bool (true = model agrees with the recorded implementation
@@ -326,6 +342,7 @@ class CoqEval:
         self.shard, self.preamble, self.max_chars = shard, preamble, max_chars
 
     def run(self, cases: list[str], jobs: int = 16, timeout: int = 900):
+        jobs = min(jobs, adaptive_jobs())
         tmp = tempfile.mkdtemp(prefix="verif-cases-")
         try:
             files = []
@@ -380,6 +397,13 @@ class CoqEval:
                         results[si] = (124, "TIMEOUT (not started)")
                     pending = []
                 time.sleep(0.02)
+            # a shard killed from outside (OOM killer, signal) leaves no Coq "Error": re-run it alone
+            for si, path in files:
+                rc, out = results[si]
+                if rc != 0 and "Error" not in out and "TIMEOUT" not in out:
+                    p = subprocess.run(["coqc"] + QFLAGS + [path], cwd=tmp, stdout=subprocess.PIPE,
+                                       stderr=subprocess.STDOUT, text=True)
+                    results[si] = (p.returncode, p.stdout)
             failing, shows, errors, evaluated = [], {}, [], 0
             for si, path in files:
                 rc, out = results[si]
